@@ -762,7 +762,7 @@ pub fn eval_select_full(q: &Select, ctx: &EvalCtx, active: &Active) -> Vec<Vec<O
 /// As `eval_select_full`, but the rows carry, after the `visible` projected columns, the ORDER BY keys that the
 /// select does not project (ORDER BY applies before projection; only generated for nested non-aggregate, non-DISTINCT
 /// selects). Returns (rows, visible, key positions with direction).
-fn eval_select_ext(q: &Select, ctx: &EvalCtx, active: &Active) -> (Vec<Vec<Option<String>>>, usize, Vec<(usize, bool)>) {
+pub fn eval_select_ext(q: &Select, ctx: &EvalCtx, active: &Active) -> (Vec<Vec<Option<String>>>, usize, Vec<(usize, bool)>) {
     let sols = eval_group(&q.body, ctx, active);
     let visible_cols = q.columns();
     let visible = visible_cols.len();
@@ -1674,8 +1674,8 @@ impl<'d> Builder<'d> {
         };
         let mut q = Select { distinct: r.distinct, proj, from: vec![], from_named: vec![], body, group_by, order: vec![], limit: None };
         let mut cols = q.columns();
-        if !top && !q.distinct && !q.has_agg() && q.group_by.is_empty() && matches!(q.proj, Proj::Items(_)) {
-            // a nested select may sort by a variable it does not project (ORDER BY applies before the projection)
+        if !q.distinct && !q.has_agg() && q.group_by.is_empty() && matches!(q.proj, Proj::Items(_)) {
+            // a select may sort by a variable it does not project (ORDER BY applies before the projection)
             for v in &vi.certain {
                 if !cols.contains(v) {
                     cols.push(v.clone());
@@ -1819,8 +1819,8 @@ pub fn features(q: &Select) -> Vec<&'static str> {
         if q.group_by.len() >= 2 {
             f.insert("group-by-2");
         }
-        if nested && q.order.iter().any(|(v, _)| !q.columns().contains(v)) {
-            f.insert("sub-order-by-unprojected-variable");
+        if q.order.iter().any(|(v, _)| !q.columns().contains(v)) {
+            f.insert(if nested { "sub-order-by-unprojected-variable" } else { "order-by-unprojected-variable" });
         }
         if !q.order.is_empty() {
             f.insert(if nested { "sub-order" } else { "order" });
@@ -1920,6 +1920,50 @@ fn multiset_minus(a: &[Vec<String>], b: &[Vec<String>]) -> Vec<Vec<String>> {
 
 /// Check an engine answer (`got`, rows over `q.columns()`, "" = unbound) against the full reference
 /// answer. Returns (sig-suffix, detail) on a mismatch.
+/// `check_answer` for a top-level select whose ORDER BY uses variables it does not project. `ext` are the reference rows
+/// with the hidden key columns appended (`eval_select_ext`). The returned rows carry no key values, so each is given
+/// the key values of the reference rows with the same projected cells — possible only when those are unique; otherwise
+/// the order clauses are not judged (Ok(false) = judged without the order, Ok(true) = fully judged).
+pub fn check_answer_hidden_keys(q: &Select, ext: &[Vec<Option<String>>], visible: usize, got_raw: &[Vec<String>]) -> Result<bool, (String, String)> {
+    let canon_row = |r: &[Option<String>]| -> Vec<String> { r.iter().map(|c| canon_num(&c.clone().unwrap_or_default())).collect() };
+    let mut keys_of: BTreeMap<Vec<String>, BTreeSet<Vec<Option<String>>>> = BTreeMap::new();
+    for r in ext {
+        keys_of.entry(canon_row(&r[..visible])).or_default().insert(r[visible..].to_vec());
+    }
+    let functional = keys_of.values().all(|s| s.len() == 1);
+    let strip: Vec<Vec<Option<String>>> = ext.iter().map(|r| r[..visible].to_vec()).collect();
+    if !functional {
+        let mut q2 = q.clone();
+        q2.order.clear();
+        return check_answer(&q2, &strip, got_raw).map(|_| false);
+    }
+    // every projected column plus the hidden keys, as if they had been projected
+    let mut cols = q.columns();
+    for (v, _) in &q.order {
+        if !cols.contains(v) {
+            cols.push(v.clone());
+        }
+    }
+    let mut q2 = q.clone();
+    q2.proj = Proj::Items(cols.into_iter().map(ProjItem::Var).collect());
+    let mut got_ext: Vec<Vec<String>> = vec![];
+    for r in got_raw {
+        if r.len() != visible {
+            return Err(("shape".into(), format!("row width {} but {} columns: {:?}", r.len(), visible, r)));
+        }
+        let key: Vec<String> = r.iter().map(|c| canon_num(c)).collect();
+        match keys_of.get(&key).and_then(|s| s.iter().next()) {
+            Some(k) => {
+                let mut e = r.clone();
+                e.extend(k.iter().map(|c| c.clone().unwrap_or_default()));
+                got_ext.push(e);
+            }
+            None => return Err((if q.limit.is_some() { "limit.subset".into() } else { "multiset".into() }, format!("returned row {:?} is not in the full answer", r))),
+        }
+    }
+    check_answer(&q2, ext, &got_ext).map(|_| true)
+}
+
 pub fn check_answer(q: &Select, full: &[Vec<Option<String>>], got_raw: &[Vec<String>]) -> Result<(), (String, String)> {
     let cols = q.columns();
     let agg_cols: Vec<usize> = match &q.proj {
